@@ -309,3 +309,41 @@ def spec_b64u_ok(b):
 
 def spec_utf8(s):
     return s.encode("utf-8")
+
+
+# ---- keys and signature relations ------------------------------------------------------------
+def make_key(kind, name, private=True, curve=None, params=None, bits=2048):
+    """A joserfc key object over a key of the given shape. kind: 'rsa' | 'ec' | 'okp'.
+    Native: a real key (cached by name); symbolic: abstract key material."""
+    from . import reference
+    from joserfc.jwk import RSAKey, ECKey, OKPKey
+    raw = reference.raw_key(kind, name, curve, bits)
+    if not private:
+        raw = raw.public_key()
+    cls = {"rsa": RSAKey, "ec": ECKey, "okp": OKPKey}[kind]
+    return cls(raw, raw, params)
+
+
+def spec_verify(alg, key, msg, sig):
+    """Valid(alg, K, m, s): RFC verification with the public part of `key` (or the octets of an oct key)."""
+    from . import reference
+    from joserfc.jwk import OctKey
+    if isinstance(key, OctKey):
+        return reference.verify(alg, key.raw_value, msg, sig)
+    raw = key.raw_value
+    pub = raw.public_key() if hasattr(raw, "public_key") else raw
+    return reference.verify(alg, pub, msg, sig)
+
+
+def spec_sign(alg, key, msg):
+    from . import reference
+    return reference.sign(alg, key.raw_value, msg)
+
+
+OPEN_FINDINGS = set()
+
+
+def known(fid):
+    """True iff `fid` is listed as an open known finding (the obligation is then proved on the complement of the
+    finding's input class).  During native replay it is always False, so a witness of the finding still fails."""
+    return False
